@@ -41,6 +41,11 @@ def start_roles(F):
                                 roles[L.local_name(a["recv"]) + "." + base["name"]] = "player#%d" % i
                             elif L.local_name(base) == cl["params"][0].get("name"):
                                 roles[L.local_name(a["recv"])] = "player#%d" % i
+                            elif cl["params"][0].get("k") == "Tuple":
+                                # `|(names, _)| names[n]` is `|p| p.0[n]`
+                                for j, q in enumerate(cl["params"][0].get("pats", [])):
+                                    if q.get("k") == "Bind" and L.local_name(base) == q.get("name"):
+                                        roles[L.local_name(a["recv"]) + "." + str(j)] = "player#%d" % i
                 elif L.local_name(a):
                     roles.setdefault(L.local_name(a), roles.get(L.local_name(a)))
     return roles
@@ -256,6 +261,18 @@ def player_roles(F):
                 ln = L.local_name(f["e"])
                 if ln:
                     roles[ln] = "team." + f["name"]
+    # a field local computed from exactly one other scalar local (`let cpu_level = is_cpu.then_some(raw_level)`): the value read
+    # into that local is the field's
+    pids = set(p.get("id") for p in b["tir"]["params"])
+    for x in tir.walk(b["tir"]["value"]):
+        if x.get("k") == "Let" and x["pat"].get("k") == "Bind" and x["pat"].get("name") in roles and x.get("init") is not None:
+            srcs = {}
+            for y in tir.walk(x["init"]):
+                if y.get("k") == "Path" and y.get("res") == "local" and y.get("id") not in pids and y.get("name") not in roles and y.get("ty") in ("u8", "i8", "u16", "u32", "f32"):
+                    srcs[y.get("id")] = y.get("name")
+            inner_lets = [z for z in tir.walk(x["init"]) if z.get("k") == "Let"]
+            if len(srcs) == 1 and not inner_lets:
+                roles.setdefault(next(iter(srcs.values())), roles[x["pat"]["name"]])
     return roles
 
 
